@@ -430,6 +430,7 @@ def model_check(chk, pid, scns=None, n_traces=None):
                     k = min(max(int(t[1]) - 1, 0), len(tr["ev"]) - 1)
                     step = tr["ev"][k].get("i", 0) if tr["ev"] else 0
                     around.append((tr["scn_obj"], tr["choices"], step - 25, step + 60, 120 if chk.thorough else 50))
+    replay_model(chk, pid, bound)
     if around:
         # drift-guided search: the executions left the model at these points - look for property violations right
         # there (single pre-emptions around the deviation), judged by the observable-event monitor
@@ -437,3 +438,96 @@ def model_check(chk, pid, scns=None, n_traces=None):
         res = pmap(h_channel.explore_around, around)
         chk.extra["drift_guided_runs"] = sum(r["runs"] for r in res)
         chan_common.judge_results(chk, pid, res, label="drift-guided")
+
+
+# ---------------------------------------------------------------------------------------------------------------
+# spec -> code: behaviours of the model generated by TLC (simulation mode) are replayed on the real server
+def simulate(cfg, n, depth, seed):
+    """-> list of behaviours, each the list of (thread, label) steps (all labels, also control points)"""
+    wd = tlc.scratch("sim")
+    try:
+        write_module(wd, "MC_Sim", cfg, workers=cfg["workers"])
+        with open(os.path.join(wd, "MC_Sim.cfg"), "w") as f:
+            f.write("SPECIFICATION Spec\nCONSTANTS CfgSet <- MCfgSet\nWorkers <- MWorkers\nCHECK_DEADLOCK FALSE\n")
+        out = os.path.join(wd, "out")
+        os.makedirs(out)
+        import subprocess
+        cmd = ["java", "-XX:+UseParallelGC", "-Xmx2g", "-cp", tlc.JAR, "-DTLA-Library=%s" % tlc.SPEC, "tlc2.TLC", "-simulate", "file=%s/tr,num=%d" % (out, n),
+               "-depth", str(depth), "-workers", "1", "-seed", str(seed), "-metadir", os.path.join(wd, "meta"), "MC_Sim"]
+        p = subprocess.run(cmd, cwd=wd, stdout=subprocess.PIPE, stderr=subprocess.STDOUT, text=True, timeout=600)
+        behs = []
+        for fn in sorted(os.listdir(out)):
+            txt = open(os.path.join(out, fn)).read()
+            pcs = re.findall(r"/\\ pc = \[([^\]]*)\]", txt)
+            prev, steps = None, []
+            for m in pcs:
+                cur = dict(re.findall(r'(\w+) \|-> "(\w+)"', m))
+                if prev is not None:
+                    moved = [t for t in cur if cur[t] != prev.get(t)]
+                    if len(moved) == 1:
+                        steps.append((moved[0], prev[moved[0]]))
+                    elif len(moved) > 1:
+                        steps = None
+                        break
+                prev = cur
+            if steps:
+                behs.append(steps)
+        if not behs:
+            raise MachineryFailure("TLC simulation produced no behaviour:\n%s" % p.stdout[-1200:])
+        return behs
+    finally:
+        shutil.rmtree(wd, ignore_errors=True)
+
+
+def replay_behaviours(args):
+    """worker: generate behaviours of the model for one bound scenario and run each on the real server"""
+    scn, cfg, n, seed = args
+    from wv.core import repo_on_path
+    repo_on_path()
+    sig, _internal = labels()
+    behs = simulate(cfg, n, 700, seed)
+    scn = dict(scn)
+    scn["racy"] = list(CORE)
+    out = []
+    for steps in behs:
+        seq = [("c1" if t == "cl" else t, sig[l]) for (t, l) in steps if l in sig]
+        pol = explore.Guided(seq, lambda name, label: (event_sig(name, label) if label and label[0] != "start" else None), pickup="service.rd.requests")
+
+        def build(S, pol=pol):
+            ctx = h_channel.Ctx(S, scn)
+
+            def hook(name, label):
+                g = event_sig(name, label) if label and label[0] != "start" else None
+                if g is not None:
+                    pol.note(name, g)
+            S.on_step = hook
+            return ctx
+        res, st = explore.run_once(build, pol, budget=6000)
+        out.append({"choices": [c for (_, c) in st], "events": res, "followed": pol.k, "length": len(seq), "diverged": pol.diverged})
+    return {"scn": scn, "runs": out}
+
+
+def replay_model(chk, pid, bound):
+    """spec -> code.  The executions are judged by the observable-event monitor like any other; a behaviour the code
+    cannot follow is a model mismatch (drift)."""
+    from checks import chan_common
+    n = 12 if chk.thorough else 3
+    pick = bound if chk.thorough else bound[:: max(1, len(bound) // 6)][:6]
+    jobs = [({k: v for k, v in s.items() if k != "racy"}, c, n, chk.seed * 31 + i) for i, (s, c) in enumerate(pick)]
+    results = pmap(replay_behaviours, jobs)
+    total = followed = 0
+    packed = []
+    for r in results:
+        traces = []
+        for x in r["runs"]:
+            total += 1
+            if x["diverged"] is None:
+                followed += 1
+            elif len(chk.drift) < 20:
+                chk.note_drift("the code cannot follow a behaviour of Channel.tla in '%s': step %d of %d, the model does %s, the code %s" % (
+                    r["scn"].get("name"), x["diverged"][0], x["length"], x["diverged"][1], x["diverged"][2]))
+            traces.append((x["choices"], x["events"]))
+        packed.append({"scn": r["scn"], "runs": len(traces), "dfs": 0, "dfs_exhausted": False, "traces": traces, "wall": 0, "maxsteps": 0})
+    chk.extra["model_behaviours_replayed_on_the_code"] = total
+    chk.extra["model_behaviours_followed_to_the_end"] = followed
+    chan_common.judge_results(chk, pid, packed, label="spec-to-code")
